@@ -152,6 +152,52 @@ def guards_of(cls):
     return res
 
 
+def clears_after_success(cls):
+    """[(function, flag, ok)] for every function of cls that tests a dirty flag and resets it: ok = the reset
+    `self.<flag> = False` can only be reached after the recomputation SUCCEEDED — it is not in a `finally:` / `except`
+    block and, inside the `if self.<flag>:` body, it follows every statement that computes (contains a call)"""
+    out = []
+    seen = set()
+    for k in inspect.getmro(cls):
+        if not k.__module__.startswith("torchtree"):
+            continue
+        for name, attr in k.__dict__.items():
+            if name in seen:
+                continue
+            fn = attr if inspect.isfunction(attr) else (attr.fget if isinstance(attr, property) else None)
+            if fn is None:
+                continue
+            seen.add(name)
+            try:
+                node = _fn_ast(fn)
+            except (Unrec, OSError, TypeError, SyntaxError, IndentationError):
+                continue
+            flags = [sub.test.attr for sub in ast.walk(node) if isinstance(sub, ast.If) and _is_self_attr(sub.test)]
+            for fl in dict.fromkeys(flags):
+                def is_clear(st):
+                    return (isinstance(st, ast.Assign) and len(st.targets) == 1 and _is_self_attr(st.targets[0], fl)
+                            and isinstance(st.value, ast.Constant) and st.value.value is False)
+                clears = [sub for sub in ast.walk(node) if is_clear(sub)]
+                if not clears:
+                    continue
+                ok = True
+                for sub in ast.walk(node):
+                    if isinstance(sub, ast.Try):
+                        for blk in [sub.finalbody] + [h.body for h in sub.handlers]:
+                            if any(is_clear(x) for st in blk for x in ast.walk(st)):
+                                ok = False
+                    for body in [getattr(sub, "body", None), getattr(sub, "orelse", None)]:
+                        if not isinstance(body, list):
+                            continue
+                        pos = [i for i, st in enumerate(body) if is_clear(st)]
+                        for i in pos:  # a computing statement AFTER the reset in the same block
+                            if any(any(isinstance(x, ast.Call) for x in ast.walk(st)) for st in body[i + 1:]
+                                   if not isinstance(st, ast.Return)):
+                                ok = False
+                out.append((name, fl, ok))
+    return out
+
+
 def explicit_regs(cls):
     p = m = False
     for k in inspect.getmro(cls):
@@ -250,6 +296,7 @@ def describe(cls, bases):
         "onModel": hm,
         "guards": gs,
         "appends": listener_append_unconditional(cls),
+        "clears_ok": clears_after_success(cls),
     }
 
 
@@ -305,6 +352,13 @@ def translate(repo: Path = None):
         "/-- (class, its add_parameter_listener / add_model_listener are exactly `self.<list>.append(listener)`) -/\n"
         "def listenerAppends : List (String × Bool) := [\n"
         + ",\n".join(f"  ({lean_str(d['name'])}, {'true' if d['appends'] else 'false'})" for d in table if d["appends"] is not None)
+        + "\n]\n\n"
+        "/-- (class, function, flag, the flag is reset only after the recomputation succeeded: not in finally/except, not\n"
+        "    before a computing statement) -/\n"
+        "def flagResets : List (String × String × String × Bool) := [\n"
+        + ",\n".join(f"  ({lean_str(d['name'])}, {lean_str(fn)}, {lean_str(fl)}, {'true' if okc else 'false'})"
+                      for d in table for fn, fl, okc in d["clears_ok"]
+                      if fl in d["onParam"]["sets"] + d["onModel"]["sets"])  # dirty flags: the ones a handler sets
         + "\n]\n\n"
         "def find (n : String) : ClassSpec :=\n"
         "  (classes.find? fun c => c.name == n).getD { (default : ClassSpec) with name := \"?\", "
